@@ -32,6 +32,33 @@ class Leaf:
         self.val = val
 
 
+class PLeaf:
+    """user class whose `name` is a read-only property (the constructor keeps the value elsewhere)"""
+
+    def __init__(self, name=None, **kwargs):
+        self._name = name  # everything else (parent, up, val) is left to textX, which sets the attributes on the object
+
+    @property
+    def name(self):
+        return self._name
+
+
+PLeaf.__name__ = "Leaf"
+
+
+class DNode:
+    """dataclass-style user class with class-level defaults named like the grammar attributes"""
+    items = []
+    head = None
+    up = None
+
+    def __init__(self, **kw):
+        self.__dict__.update(kw)
+
+
+DNode.__name__ = "Node"
+
+
 class Node:
     """collection-like user class: an empty container is falsy (len() == 0) although it may still hold a `head`"""
 
@@ -54,7 +81,8 @@ def mm(user):
     if user not in _S:
         from textx import metamodel_from_str
 
-        _S[user] = metamodel_from_str(trees.GRAMMAR, classes=[Leaf, Node] if user == "sized" else [Leaf] if user else None)
+        classes = {"sized": [Leaf, Node], "odd": [PLeaf, DNode], True: [Leaf], False: None}[user]
+        _S[user] = metamodel_from_str(trees.GRAMMAR, classes=classes)
     return _S[user]
 
 
@@ -167,7 +195,7 @@ def work(arg):
         elif paths:
             refs += [(paths[-1], paths[0]), (paths[0], paths[-1])]
         for ref in refs:
-            for user in (False, True, "sized"):
+            for user in (False, True, "sized", "odd"):
                 cid = [f, ref, user]
                 try:
                     with watchdog(20):
@@ -195,7 +223,7 @@ def run(ctx):
         units += [(fs[i:i + 4], wr) for i in range(0, len(fs), 4)]
     ctx.pmap(work, units)
     return {
-        "rule": "case = (forest, optional reference src->dst, classes: generated / user class Leaf / user classes Leaf and a collection-like Node that is falsy when it has no items); per case: parent and get_model for every object, get_children for "
+        "rule": "case = (forest, optional reference src->dst, classes: generated / user class Leaf / user classes Leaf and a collection-like Node that is falsy when it has no items / a Leaf with a read-only property and a Node with class-level defaults); per case: parent and get_model for every object, get_children for "
                 "4 selectors x 3 should_follow x 2 orders from every start object, get_children_of_type / get_parent_of_type for every start x type "
                 "(by name and by class). plan (objects, all references?) = %s; non-trivial = more than one object" % (plan,),
         "exhaustive": True, "forests": nf,
